@@ -1,8 +1,8 @@
 SPECIFICATION GSpec
 CONSTANTS
-  Mode = "lc"
-  Objs = {1}
-  Keys = {1,2}
+  Mode = "all"
+  Objs = {1,2}
+  Keys = {1}
   D = 5
   Outcomes = {"ok","err","panic"}
   Hooks = FALSE
